@@ -17,27 +17,29 @@
     interpreted by Model/Peg.v, with the [map] functions interpreted by
     Model/ParseActionsXPath.v), and [abs_or] reads the Rust AST as a tree of the recommendation.
 
-    PROVED HERE (rung 1 of the ladder): [parse_spell_partial_operators] -- the statement above for
-    every spelling whose tree is built from the eight operator levels, unary minus, literals,
-    numbers, variable references, function calls and parentheses (no location paths, no
-    predicates).  It is in fact stronger than [≈]: the parser returns exactly the tree that
-    was spelled ([parse_spell_surface_operators]).  Precedence and left associativity are
-    corollaries ([precedence_right], [precedence_left], [left_assoc], [unary_binds_tighter],
-    [union_binds_tightest]) together with [other_grouping_needs_parentheses].
+    PROVED HERE:
+    - [parse_spell]: the first statement, for EVERY tree and every spelling of it, under the one
+      hypothesis [no_fname_case (surface sp)] that excludes known finding C08-fname-case (after
+      the D28 repair a function name that equals a NodeType up to letter case is rejected;
+      [fname_case_refuted] is the witness [Text()]).  It is in fact stronger than [≈]: the
+      parser returns exactly the tree that was spelled ([parse_spell_surface]): operators,
+      unary minus, literals, numbers, variables, function calls, parentheses, filter expressions,
+      predicates, the root, location paths with every axis, node test and abbreviation.
+    - precedence and left associativity as corollaries: [precedence_right], [precedence_left],
+      [left_assoc], [unary_binds_tighter], [union_binds_tightest],
+      [other_grouping_needs_parentheses]; [parse_spell_partial_operators] is the first rung of
+      the ladder (kept for reference).
+    - [xpath_parse_terminates]: the parser half of C06 (no input exhausts the fuel).
 
-    MISSING: (1) steps, predicates and location paths in [parse_spell] (the lexical lemmas and
-    the chain machinery are in place; what is missing is the case analysis of [step],
-    [node_test], [axis_specifier], [relative_location_path], [filter_expr] with predicates);
-    (2) [spelling_irrelevant]: it follows from [parse_spell] once the evaluator model
+    MISSING: [spelling_irrelevant].  It follows from [parse_spell] once the evaluator model
     (Model/XPathEval.v, property C05) is shown to respect [≈]; until then that half is
     established by the failing-input search of checks/C08.py on the real [query] (every
-    generated spelling pair is evaluated on documents).
-
-    KNOWN FINDING C08-fname-case: after the D28 repair a function name that equals a NodeType up
-    to letter case is rejected; [fname_case_ok] excludes it ([KnownFnameCase] is its negation on derivable names), [fname_case_refuted] is the witness [Text()]. *)
+    generated spelling pair is evaluated on documents).  Also not proved: that [paren] and
+    [abbreviate] (the canonical spellings computed in Spec/XPathSyntax.v) always yield
+    derivable, equivalent trees -- the check validates them on every generated tree. *)
 From Coq Require Import List NArith Arith Bool.
 From XmlRs Require Import Base.CPred Spec.XPathSyntax Model.Peg Model.XPathAst
-  Model.ParseActionsXPath Model.XPathAstAbs Proofs.XPathParseExpr Proofs.XPathParsePrecedence.
+  Model.ParseActionsXPath Model.XPathAstAbs Proofs.XPathParseExpr Proofs.XPathParseMain Proofs.XPathParsePrecedence.
 Import ListNotations.
 
 (** the parser of XPath expressions terminates on every input (parser half of C06) *)
@@ -48,6 +50,19 @@ Theorem xpath_parse_never_oof : forall s : str, parse_expr s <> POof.
 Proof. exact xpath_parse_never_oof_proof. Qed.
 
 (** the surface round trip: what was spelled is what is parsed *)
+Theorem parse_spell_surface : forall (a : xexpr) (w : wtree),
+  wfb a = true -> no_fname_case a = true -> ws_ok w = true ->
+  exists e, parse_expr (spell_surface a w) = POk e [] /\ abs_or e = a.
+Proof. exact parse_spell_surface_proof. Qed.
+
+(** every spelling of every tree is accepted completely and means the tree (up to the
+    equivalences of the recommendation) *)
+Theorem parse_spell : forall (a : xexpr) (sp : spelling),
+  ok_spelling a sp -> no_fname_case (surface sp) = true ->
+  exists e, parse_expr (spell a sp) = POk e [] /\ abs_or e ≈ a.
+Proof. exact parse_spell_proof. Qed.
+
+(** rung 1 of the ladder *)
 Theorem parse_spell_surface_operators : forall (a : xexpr) (w : wtree),
   wfb a = true -> rung1 a = true -> ws_ok w = true ->
   exists e, parse_expr (spell_surface a w) = POk e [] /\ abs_or e = a.
@@ -102,6 +117,8 @@ Proof. exact union_binds_tightest_proof. Qed.
 
 (** the hypotheses are satisfiable by a non-trivial value (Proofs/XPathParsePrecedence.v) *)
 Check ex_hypotheses : wfb ex_tree = true /\ rung1 ex_tree = true /\ ws_ok ex_white = true.
+Check ex_path_hypotheses : wfb ex_path = true /\ no_fname_case ex_path = true.
+Check ex_path_parses : exists e, parse_expr (spell_surface ex_path (W false [] [])) = POk e [] /\ abs_or e = ex_path.
 
 (** the known finding: a function name that differs from a NodeType only in letter case *)
 Theorem fname_case_refuted : exists f : xqname,
@@ -110,6 +127,8 @@ Theorem fname_case_refuted : exists f : xqname,
 Proof. exact fname_case_refuted_proof. Qed.
 
 Print Assumptions xpath_parse_terminates.
+Print Assumptions parse_spell_surface.
+Print Assumptions parse_spell.
 Print Assumptions parse_spell_surface_operators.
 Print Assumptions parse_spell_partial_operators.
 Print Assumptions precedence_right.
